@@ -52,10 +52,50 @@ def run_static(res, name, afs, **opts):
     for k, v in opts.items():
         args += ["--" + k, v]
     t = time.time()
-    vlib.vh(args)
-    segs = vlib.segments(out, openers=("af",))
+    try:
+        vlib.vh(args, timeout=1800)
+        segs = vlib.segments(out, openers=("af",))
+    except vlib.HarnessDied as ex:
+        # the code under test took the whole process down (runaway allocation, abort, endless loop): that is data, not a tool
+        # error -- isolate the frameworks on which it happens and record them as queries that did not return
+        log("  NOTE %s: isolating the frameworks on which the process dies" % ex)
+        segs = isolate_static(res, name, afs, opts)
     log("  RUN %-26s %6d frameworks -> %8d events  %5.1fs" % (name, len(afs), sum(len(s) for s in segs), time.time() - t))
     return segs
+
+
+def isolate_static(res, name, afs, opts, depth=0, budget=None):
+    """bisection: runs the harness on halves of the framework list in separate processes"""
+    if budget is None:
+        budget = [40]
+    segs = []
+    if not afs:
+        return segs
+    afile = os.path.join(res.wd, "%s.iso%d.afs.jsonl" % (name, depth))
+    out = os.path.join(res.wd, "%s.iso%d.ndjson" % (name, depth))
+    afgen.write(afile, afs)
+    args = ["static", "--afs", afile, "--out", out, "--seed", seed(), "--threads", vlib.NCPU]
+    for k, v in opts.items():
+        args += ["--" + k, v]
+    try:
+        vlib.vh(args, timeout=120 if len(afs) == 1 else 900)
+        return vlib.segments(out, openers=("af",))
+    except vlib.HarnessDied:
+        pass
+    if len(afs) == 1 or budget[0] <= 0:
+        a = afs[0]
+        kinds = str(opts.get("kinds", "SE")).split(",")
+        sems = str(opts.get("sems", "GR,CO,PR,ST,SST,STG,ID")).split(",")
+        seg = [{"ev": "af", "idx": 0, "tag": a.get("tag", ""), "present": "compact", "n": a["n"], "args": list(range(1, a["n"] + 1)),
+                "ids": [[i, i - 1] for i in range(1, a["n"] + 1)], "att": a["att"], "sems": sems}]
+        out_ = {"capped": False, "ext": [], "faulted": False, "has_ext": False, "panic": "process died (killed, aborted or timed out) while answering queries on this framework", "st": "none"}
+        for k in kinds:
+            seg.append({"ev": "q", "sem": sems[0], "kind": k, "args": [] if k == "SE" else [1], "cert": False, "encs": ["?"], "oracle": "?", "backend": "?",
+                        "out": out_, "mult": 1, "runs": 1, "exh": False, "isolated": True})
+        return [seg]
+    budget[0] -= 1
+    mid = len(afs) // 2
+    return isolate_static(res, name, afs[:mid], opts, depth + 1, budget) + isolate_static(res, name, afs[mid:], opts, depth + 1, budget)
 
 
 def static_plan(tier):
@@ -103,7 +143,8 @@ def static_check(pid, tier, kinds, cert, rule_kind, rule, sems="GR,CO,PR,ST,SST,
         afs = sets[sname]
         if lists > 1:
             afs = [a for a in afs if a["n"] <= (4 if lists >= 3 else 6)]
-        opts = dict(sems=sems, kinds=kinds, cert=cert, present=present, oracle=oracle, budget=budget, lists=lists)
+        opts = dict(sems=sems, kinds=kinds, cert=cert, present=present, oracle=oracle, budget=budget, lists=lists,
+                    cap=300 if sname in ("ref3", "iso4") else 1500)       # SAT calls per query before it is declared non-terminating
         if extra:
             opts.update(extra)
         segs = run_static(res, "%s_%s_%s" % (pid, sname, oracle), afs, **opts)
@@ -428,6 +469,12 @@ def c17(tier):
             fs = [e for s in segs for e in s if e["ev"] == "fault" and e["out"]["faulted"]]
             if fs:
                 res.samples.append(fs[len(fs) // 2])
+    out = os.path.join(res.wd, "trunc.ndjson")
+    vlib.vh(["ext", "--volumes", ",".join("trunc:%d" % k for k in range(0, 31)), "--fakesat", FAKESAT, "--timeout_ms", 20000,
+             "--tmp", os.path.join(res.wd, "exttmp"), "--out", out, "--threads", vlib.NCPU])
+    tsegs = vlib.segments(out, openers=("reset",))
+    t1, st = vlib.judge("TraceExtSat.tla", tsegs, res.wd, "trunc")
+    res.add_judge("truncation_sweep", t1, st, only_props={"C17"})
     res.nontrivial = len(nt)
     res.rule = ("for every query a fault-free run counts the SAT calls k, then one run per position 1..k with the backend answering Unknown at "
                 "that call (FaultySat through the public factory); separately every SAT call fails through a real process (fakesat modes: exit "
@@ -511,6 +558,7 @@ def c16(tier):
     rfile, nr = export_replay(res, "MCExtReply.tla", open(os.path.join(vlib.SPEC, "MCExtReply.cfg")).read().replace("MaxLines = 3", "MaxLines = %d" % (4 if thorough else 3)), "MCExtReply")
     out = os.path.join(res.wd, "ext.ndjson")
     vols = "ok,pad:1024,pad:61440,pad:66000,pad:71680,pad:1048576,pad:8388608,split:1,split:2,split:5,early"
+    vols += "," + ",".join("trunc:%d" % k for k in range(0, 31))       # a 31-variable model cut after every literal
     if thorough:
         vols += ",pad:33554432,pad:65536,pad:65537,pad:131072"
     tmp = os.path.join(res.wd, "exttmp")
